@@ -115,7 +115,7 @@ def main():
         caught = False
         for prop in props:
             before = set(os.listdir(os.path.join(VERIF, "replays"))) if os.path.isdir(os.path.join(VERIF, "replays")) else set()
-            r = sh(f"VERIF_REPO={wt} {VERIF}/bin/check {prop} quick --budget {budget}")
+            r = sh(f"VERIF_REPO={wt} {VERIF}/bin/check {prop} quick --budget {budget} --workers 10")
             classes = " ".join(l.split()[2] for l in r.stdout.splitlines() if l.startswith("violation class") or l.startswith("data race"))
             rows.append((mid, prop, f"exit={r.returncode}", classes))
             dst = os.path.join(VERIF, "replays", "mutants", mid)
